@@ -231,15 +231,18 @@ def enum_algebra(seed):
         if {x.location for x in moved} != want:
             bad({"A": sorted(A)}, f"change_offset('/', '/new/root') gave {sorted(x.location for x in moved)}")
         # ... from a prefix to another one, every spelling of the two offsets; type and attributes of every entry are kept
-        for old, new in (("/new/root", "/"), ("/new/root/", "/"), ("/new/root", "/other"), ("/new/root/", "/other/"), ("/new/root", "/other//deep"), ("/new", "/new/root/x")):
+        # the set also holds the old prefix directory itself (it becomes the new prefix, "/" when relocating to the root)
+        moved = contentsSet(list(moved) + [fs.fsDir("/new/root", mode=0o755, uid=0, gid=0, mtime=1, strict=False), fs.fsDir("/new", mode=0o755, uid=0, gid=0, mtime=1, strict=False)])
+        for old, new in (("/new/root", "/"), ("/new/root/", "/"), ("/new/root", "/other"), ("/new/root/", "/other/"), ("/new/root", "/other//deep"), ("/new", "/new/root/x"), ("/new", "/")):
             cases += 1
             try:
-                back = moved.change_offset(old, new)
+                back = contentsSet(x for x in moved if x.location == old.rstrip("/") or x.location.startswith(old.rstrip("/") + "/")).change_offset(old, new)
             except Exception as e:
                 bad({"A": sorted(A), "old": old, "new": new}, f"change_offset({old!r}, {new!r}) raised {e!r}")
                 continue
             o = old.rstrip("/")
-            wantb = {"/" + "/".join(c for c in (new + "/" + x.location[len(o):]).split("/") if c): x for x in moved}
+            wantb = {"/" + "/".join(c for c in (new + "/" + x.location[len(o):]).split("/") if c): x
+                     for x in moved if x.location == o or x.location.startswith(o + "/")}
             gotb = {x.location: x for x in back}
             if set(gotb) != set(wantb):
                 bad({"A": sorted(A), "old": old, "new": new}, f"change_offset({old!r}, {new!r}) on {sorted(x.location for x in moved)} gave {sorted(gotb)}, replacing the prefix gives {sorted(wantb)}")
